@@ -4,6 +4,7 @@ import (
 	"fmt"
 	"os"
 	"sort"
+	"sync"
 
 	"github.com/tonistiigi/fsutil/types"
 )
@@ -21,6 +22,10 @@ type SendScript struct {
 	// Trailing: packets (empty DATA frames for id 0) still sent after the FIN echo
 	// and before the stream is closed: the receiver has to read to the end
 	Trailing int `json:"trailing,omitempty"`
+	// Serial: a single-threaded sender. It announces everything, then repeatedly
+	// reads one packet from the receiver and, if that is a request, streams the
+	// whole file before it reads again (requests wait in the transport meanwhile)
+	Serial bool `json:"serial,omitempty"`
 	// Inject lists extra packets a hostile sender slips in (never used for
 	// conforming senders): each is sent once PacketsSent reaches After.
 	Inject []Inject `json:"inject,omitempty"`
@@ -75,9 +80,16 @@ func RunRefSender(res *RefSendResult, end *End, stats []*types.Stat, dataFor fun
 	}
 	events := make(chan sendEvent, 4096)
 	readerDone := make(chan struct{})
+	permit := make(chan struct{}, 1)
+	var permitOnce sync.Once
+	freeReader := func() { permitOnce.Do(func() { close(permit) }) }
+	defer freeReader()
 	go func() {
 		defer close(readerDone)
 		for {
+			if sc.Serial {
+				<-permit
+			}
 			var p types.Packet
 			if err := end.RecvMsg(&p); err != nil {
 				events <- sendEvent{kind: "end", err: err}
@@ -138,7 +150,9 @@ func RunRefSender(res *RefSendResult, end *End, stats []*types.Stat, dataFor fun
 				res.FinBeforeDone = fmt.Sprintf("FIN while id %d still had content outstanding", o.id)
 			}
 		case "err":
+			// the receiver gave up: a sender ends its side of the stream
 			res.ErrPacket = ev.msg
+			ended = true
 		case "end":
 			res.EndErr = ev.err
 			ended = true
@@ -209,6 +223,12 @@ loop:
 			actions = append(actions, "data")
 		}
 		if len(actions) == 0 {
+			if sc.Serial {
+				select {
+				case permit <- struct{}{}:
+				default:
+				}
+			}
 			handle(<-events)
 			continue
 		}
@@ -262,6 +282,7 @@ loop:
 			o.off += n
 		}
 	}
+	freeReader()
 	if res.FinSeen && !ended {
 		if atFin != nil {
 			atFin()
